@@ -287,10 +287,15 @@ CHECKS = {
     ),
     "C04": dict(
         pkg=".", hdir="root", test="TestVerif_C04", wal=True,
-        quick=dict(shards=48, checks=40, timeout=900),
-        thorough=dict(shards=64, checks=1200, timeout=5400),
+        also=[dict(alias="lancero", pkg="./lancero", hdir="lancero", test="TestVerif_C04A", ids=["C04A"])],
+        quick=dict(shards=48, checks=1, per_test={"TestVerif_C04": 40, "TestVerif_C04A": 1500}, timeout=900),
+        thorough=dict(shards=64, checks=1, per_test={"TestVerif_C04": 1200, "TestVerif_C04A": 60000}, timeout=5400),
         technique="property-based testing (rapid) with a scripted in-memory card (lancero.Lanceroer) as the clock; reference demultiplexer/mixer/external-trigger scanner as oracle",
-        rule="rapid-generated geometries (1-8 columns x 2-16 rows, NSAMP 1-16), arbitrary frame contents obeying the frame-bit convention (incl. "
+        rule="(A, package lancero) the real Lancero object and DMA ring adapter on temporary register files, the harness as the FPGA: 4-40 "
+             "operations (FPGA writes of 1-100 words, up to the ring's end exactly, or as far as allowed; AvailableBuffer; release of 0-100 % "
+             "of the last read; adapter restart) on rings of 64-4096 bytes - every read must return exactly the unreleased part of the "
+             "stream; non-trivial = a read that crosses or ends at the ring's end. "
+             "(main) rapid-generated geometries (1-8 columns x 2-16 rows, NSAMP 1-16), arbitrary frame contents obeying the frame-bit convention (incl. "
              "full-scale errors and feedback), a stream starting mid-frame, chunk schedules of 3-15 driver reads (frame-aligned, tiny, around the "
              "3-frame minimum, arbitrary byte counts), 0-4 external-trigger pulses of 1 row-time to 3 frames, and either 1-3 mix requests "
              "(fractions 0, +-small, +-huge; served while the card is held empty so the block boundary is known) or one gap of lost words "
